@@ -132,10 +132,12 @@ func filterFunc(c *chk.Ctx) *ssa.Function {
 	var out *ssa.Function
 	for _, f := range pkgFuncs(c, c.M.Pkg) {
 		hasLookup, hasAppend := false, false
-		ir.Instrs(f, func(ins ssa.Instruction) {
+		c.P.ExtInstrs(f, func(ins ssa.Instruction) {
 			if lk, ok := ins.(*ssa.Lookup); ok && chk.LoadsField(lk.X, c.M.SCall) {
 				hasLookup = true
 			}
+		})
+		ir.Instrs(f, func(ins ssa.Instruction) {
 			if call, ok := ins.(*ssa.Call); ok {
 				if b, isB := call.Call.Value.(*ssa.Builtin); isB && b.Name() == "append" && isJmessagesType(c, call.Type()) {
 					hasAppend = true
@@ -169,30 +171,86 @@ func ruleReplyFilter(c *chk.Ctx) {
 		}
 		n++
 		var kinds []string
-		isReq, notPush := false, false
-		for _, cd := range ir.CondsAt(call.Block()) {
-			if is, truth := condIsMsgRequest(c, cd); is {
-				if truth {
-					isReq = true
-					kinds = append(kinds, "request")
-				} else {
-					kinds = append(kinds, "¬request")
-				}
+		allOK := true
+		recognised := func(cd ir.Cond) bool {
+			if is, _ := condIsMsgRequest(c, cd); is {
+				return true
 			}
-			if is, truth := condOnBoolField(cd, c.M.SAllowP, loadsAllow); is {
-				if !truth {
-					notPush = true
-					kinds = append(kinds, "¬allowPush")
-				} else {
-					kinds = append(kinds, "allowPush")
-				}
-			}
+			is, _ := condOnBoolField(cd, c.M.SAllowP, loadsAllow)
+			return is
 		}
-		c.Check(isReq || notPush, "WHO.filter", ff, "member kept for dispatch", call.Pos(), "a member is kept for dispatch only if it is a request/notification, or push is disabled ["+strings.Join(kinds, "∧")+"]",
+		var alts [][]ir.Cond
+		for _, a := range ir.CondAltsAt(call.Block()) {
+			alts = append(alts, expandPredicateHelpersKeep(c, a, 0, recognised)...)
+		}
+		for _, alt := range alts {
+			isReq, notPush := false, false
+			for _, cd := range alt {
+				if is, truth := condIsMsgRequest(c, cd); is {
+					if truth {
+						isReq = true
+						kinds = append(kinds, "request")
+					} else {
+						kinds = append(kinds, "¬request")
+					}
+				}
+				if is, truth := condOnBoolField(cd, c.M.SAllowP, loadsAllow); is {
+					if !truth {
+						notPush = true
+						kinds = append(kinds, "¬allowPush")
+					} else {
+						kinds = append(kinds, "allowPush")
+					}
+				}
+			}
+			if !(isReq || notPush) {
+				allOK = false
+			}
+			kinds = append(kinds, "|")
+		}
+		c.Check(allOK, "WHO.filter", ff, "member kept for dispatch", call.Pos(), "a member is kept for dispatch only if it is a request/notification, or push is disabled ["+strings.Join(kinds, "∧")+"]",
 			"a reply-shaped member that matches no pending callback is kept for dispatch on a push-enabled server ["+strings.Join(kinds, "∧")+"]: it would be answered with an error bearing the callback's id, which collides with the client's own ids")
 	})
 	if n == 0 {
 		c.Undecided("WHO.filter", ff, "member kept for dispatch", ff.Pos(), "no append found in the reply filter")
+	}
+	// request-shaped members never touch the callback table: every lookup of an inbound id in it
+	// is reached only on the ¬isRequestOrNotification edge (client and server number their calls
+	// independently, so a client call may carry the id of a pending callback)
+	nlk := 0
+	c.P.ExtInstrs(ff, func(ins ssa.Instruction) {
+		lk, ok := ins.(*ssa.Lookup)
+		if !ok || !chk.LoadsField(lk.X, c.M.SCall) {
+			return
+		}
+		nlk++
+		routed := true
+		var alts [][]ir.Cond
+		for _, a := range ir.CondAltsAt(lk.Block()) {
+			alts = append(alts, a)
+		}
+		if lk.Parent() != ff {
+			// in a helper: the outcomes at the call sites inside the filter count as well
+			alts = nil
+			for _, ctx := range c.P.Contexts(lk, func(f *ssa.Function) bool { return f == ff }) {
+				alts = append(alts, ctx)
+			}
+		}
+		for _, alt := range alts {
+			away := false
+			for _, cd := range alt {
+				if is, truth := condIsMsgRequest(c, cd); is && !truth {
+					away = true
+				}
+			}
+			if !away {
+				routed = false
+			}
+		}
+		c.Check(routed && len(alts) > 0, "WHO.filter", lk.Parent(), "requests routed away before callback matching", lk.Pos(), "the callback table is consulted only on the ¬isRequestOrNotification edge", "a client request could be matched against the callback table by its id: a call that happens to carry the id of a pending callback would be swallowed as that callback's reply and never answered")
+	})
+	if nlk == 0 {
+		c.Undecided("WHO.filter", ff, "callback lookup", ff.Pos(), "no lookup of an inbound id in the callback table found")
 	}
 	// the filter returns only what it built, never its input
 	for _, r := range ir.Returns(ff) {
@@ -230,7 +288,7 @@ func ruleReplyFilter(c *chk.Ctx) {
 			c.Check(okProv && len(srcs) > 0, "WHO.filter", f, "only filtered batches are queued", ci.Pos(), "the queued batch is the reply filter's result", "the reader can queue a batch that did not pass the reply filter ("+strings.Join(srcs, ", ")+"): replies would be dispatched as requests, and a callback awaited by a notification handler would deadlock behind the barrier")
 		})
 	}
-	c.Floor("WHO.filter", 4, "two appends, return, queue insert")
+	c.Floor("WHO.filter", 3, "append(s), return, queue insert")
 }
 
 // ruleClientRouting: C04-D4: request-shaped members never touch the pending table.
